@@ -7,7 +7,7 @@ from harness.props import c01
 
 INV = ['C02_Structure', 'C09_Conserves', 'OutcomeIsDiagnostic']
 ATTACH = ['', ' ', '\t', '\n', ' \n ', '  ', '\t\n', '\r', ' \r ']
-DETACH_TEXT = ['x', 'é', ' [b]', '\n[b', '\n\n', '.', '\n\n[', '.[b]', ' \n\n ', ']', '[', ' ', '\n \n']
+DETACH_TEXT = ['x', 'é', ' [b]', '\n[b', '\r\n', '\n\n', '.', '\n\n[', '.[b]', ' \n\n ', ']', '[', ' ', '\n \n']
 
 
 def args_of(expr, out):
@@ -24,6 +24,20 @@ def args_of(expr, out):
     return out
 
 
+def all_groups(expr, out):
+    """every argument group of the tree"""
+    from TexSoup.data import TexExpr, TexGroup
+    for a in expr.args:
+        if isinstance(a, TexGroup):
+            out.append(a)
+        if isinstance(a, TexExpr):
+            all_groups(a, out)
+    for x in expr._contents:
+        if isinstance(x, TexExpr):
+            all_groups(x, out)
+    return out
+
+
 def check_doc(args):
     rec, skip = args
     src = from_atoms(rec['i'])
@@ -31,6 +45,10 @@ def check_doc(args):
     if o['o'] != 'ok':
         return [('C09-parse', {'outcome': o['o']})], False
     bad = []
+    for g in all_groups(soup.expr, []):
+        if all(isinstance(x, str) for x in g._contents) and g.string != ''.join(str(x) for x in g._contents):
+            bad.append(('C09-argument-content', {'group': str(g), 'string': g.string}))
+            break
     if o['abs'] != rec['abs']:
         bad.append(('C09-attachment', {'tree': repr(soup.expr)[:400], 'args': args_of(soup.expr, [])[:6]}))
     return bad, o['flat'] != rec['flat']
